@@ -220,7 +220,14 @@ func (g *G) md(prefix string) string {
 // txHash returns a fresh valid ethereum tx hash.
 func (g *G) txHash() string {
 	g.uniq++
-	return fmt.Sprintf("0x%060x%04x", g.Seed&0xffffffffffff, g.uniq)
+	h := fmt.Sprintf("0x%060x%04x", g.Seed&0xffffffffffff|0xabcdef0000000000, g.uniq)
+	// hex digits may be written in either case (0x[0-9a-fA-F]{64}): one hash in four carries upper-case digits, so that a
+	// handler that re-spells the id before recording it shows up when the id is replayed through another entry point
+	if g.R != nil && g.R.Chance(1, 4) {
+		g.bump("origin:upper-case-hex-id")
+		return "0x" + strings.ToUpper(h[2:])
+	}
+	return h
 }
 
 // ethAddr returns a deterministic valid ethereum address number k.
